@@ -3,6 +3,9 @@ package main
 import (
 	"fmt"
 	"go/token"
+	"go/types"
+	"os"
+	"strings"
 
 	"golang.org/x/tools/go/ssa"
 )
@@ -194,4 +197,319 @@ func joinUniq(ss []string) string {
 		out += s
 	}
 	return out
+}
+
+func init() {
+	register("W6", "append never writes into shared element storage: every append whose first operand holds Starlark values (Tuple, []Value, []Tuple) appends to storage allocated in the same function, to a capacity-clamped slice (s[:n:n]), or to an object's own field that is stored back under the mutation guard; appending to a tuple/slice received from elsewhere could overwrite elements that other (frozen, hashed) values share", 30, ruleW6)
+}
+
+func ruleW6(c *Ctx) {
+	fc := computeReturnsFresh(c.P)
+	w6Prog = c.P
+	n := 0
+	for _, fn := range c.P.Funcs {
+		if !isProdPkg(fnPkgPath(fn)) {
+			continue
+		}
+		if p := fnPkgPath(fn); p != modPath+"/starlark" && p != modPath+"/starlarkstruct" {
+			continue
+		}
+		eachInstr(fn, func(in ssa.Instruction) {
+			call, ok := in.(*ssa.Call)
+			if !ok {
+				return
+			}
+			b, ok := call.Call.Value.(*ssa.Builtin)
+			if !ok || b.Name() != "append" {
+				return
+			}
+			st := call.Call.Args[0].Type()
+			if !valueLike(st) {
+				return
+			}
+			n++
+			key := fmt.Sprintf("%s: append to %s", fnName(fn), typeShort(st))
+			pos := c.P.Pos(call.Pos())
+			verdict, why := w6Operand(fc, fn, call, call.Call.Args[0], map[ssa.Value]bool{})
+			switch verdict {
+			case "fresh":
+				c.trivial(key, pos, why)
+			case "ok":
+				c.ok(key, pos, why)
+			default:
+				if r, ok := w6Exceptions[strings.TrimSuffix(strings.Split(key, " #")[0], "")]; ok {
+					c.except(key, pos, r)
+					return
+				}
+				c.viol(key, pos, "append to a slice of Starlark values that was not allocated here and is not capacity-clamped ("+why+"): if it has spare capacity the append overwrites elements of a backing array shared with other values (e.g. a frozen tuple it was sliced from), silently changing them and racing with readers")
+			}
+		})
+	}
+	if n < 30 {
+		c.anchorFail("only %d appends to value slices found", n)
+	}
+}
+
+func w6Operand(fc *freshCtx, fn *ssa.Function, app *ssa.Call, v ssa.Value, seen map[ssa.Value]bool) (string, string) {
+	if seen[v] {
+		return "fresh", "loop-carried"
+	}
+	seen[v] = true
+	switch x := v.(type) {
+	case *ssa.Const:
+		return "fresh", "nil slice"
+	case *ssa.MakeSlice:
+		return "fresh", "made in this function"
+	case *ssa.Alloc:
+		return "fresh", "array literal"
+	case *ssa.Slice:
+		if x.Max != nil {
+			return "ok", "capacity-clamped three-index slice"
+		}
+		// reslice of ...
+		if r, why := w6Operand(fc, fn, app, x.X, seen); r == "fresh" {
+			return "fresh", why
+		} else if r == "ok" && strings.HasPrefix(why, "the object's own") {
+			return r, why
+		}
+		return "bad", "two-index reslice of a slice from elsewhere"
+	case *ssa.Call:
+		if b, ok := x.Call.Value.(*ssa.Builtin); ok && b.Name() == "append" {
+			return w6Operand(fc, fn, app, x.Call.Args[0], seen)
+		}
+		if cal := x.Call.StaticCallee(); cal != nil && fc.returnsFresh[cal] {
+			return "fresh", "result of " + fnName(cal)
+		}
+		if cal := x.Call.StaticCallee(); cal != nil && (strings.HasPrefix(cal.String(), "slices.Clone") || strings.HasPrefix(cal.String(), "slices.Concat")) {
+			return "fresh", "copy made by " + cal.Name()
+		}
+		return "bad", "result of " + calleeName(x)
+	case *ssa.Phi:
+		worst, why := "fresh", "all incoming values fresh"
+		for _, e := range x.Edges {
+			r, w := w6Operand(fc, fn, app, e, seen)
+			if r == "bad" {
+				return r, w
+			}
+			if r == "ok" {
+				worst, why = r, w
+			}
+		}
+		return worst, why
+	case *ssa.ChangeType:
+		return w6Operand(fc, fn, app, x.X, seen)
+	case *ssa.Convert:
+		return w6Operand(fc, fn, app, x.X, seen)
+	case *ssa.UnOp:
+		if x.Op == token.MUL {
+			if a, ok := x.X.(*ssa.Alloc); ok && isVarCell(a) {
+				// local variable: every stored value
+				worst, why := "fresh", "local variable holding fresh storage"
+				n := 0
+				for _, r := range *a.Referrers() {
+					if st, ok := r.(*ssa.Store); ok && st.Addr == a {
+						n++
+						rr, w := w6Operand(fc, fn, app, st.Val, seen)
+						if rr == "bad" {
+							return rr, w
+						}
+						if rr == "ok" {
+							worst, why = rr, w
+						}
+					}
+				}
+				if n > 0 {
+					return worst, why
+				}
+			}
+			if fa, ok := x.X.(*ssa.FieldAddr); ok {
+				// x.f = append(x.f, ...): result stored back into the same field
+				for _, r := range *app.Referrers() {
+					if st, ok := r.(*ssa.Store); ok {
+						if fb, ok := st.Addr.(*ssa.FieldAddr); ok && fb.Field == fa.Field && sameValue2(fb.X, fa.X) {
+							return "ok", "the object's own field, stored back (mutation guarded by W1)"
+						}
+					}
+				}
+				return "bad", "field " + deref(fa.X.Type()).Underlying().(*types.Struct).Field(fa.Field).Name() + " of another object, result not stored back"
+			}
+			if fv, ok := x.X.(*ssa.FreeVar); ok {
+				// captured local of the enclosing function (e.g. an accumulator)
+				_ = fv
+				return "ok", "captured accumulator variable of the enclosing function"
+			}
+		}
+		return "bad", "loaded from elsewhere"
+	case *ssa.Parameter:
+		// scratch stack passed down the call chain only (the printer's cycle path): the
+		// appended slice is never stored or returned, so overwriting a sibling's slot is harmless
+		if stackOnlyValue(app, map[*ssa.Parameter]bool{}) && stackOnlyParam(x, map[*ssa.Parameter]bool{}) {
+			return "ok", "scratch stack: the slice and the append result are only passed down to callees, never stored or returned"
+		}
+		// a private helper that appends to its parameter and returns it: judged at its call sites
+		top := x.Parent()
+		if top.Object() != nil && !top.Object().Exported() && w6Depth < 3 {
+			idx := -1
+			for i, q := range top.Params {
+				if q == x {
+					idx = i
+				}
+			}
+			n, bad := 0, ""
+			w6Depth++
+			for _, g := range w6Prog.Funcs {
+				eachInstr(g, func(in ssa.Instruction) {
+					ci, ok := in.(*ssa.Call)
+					if !ok || ci.Call.StaticCallee() != top || bad != "" || idx < 0 {
+						return
+					}
+					n++
+					if r, why := w6Operand(fc, g, ci, ci.Call.Args[idx], map[ssa.Value]bool{}); r == "bad" {
+						bad = why
+					}
+				})
+			}
+			w6Depth--
+			if n > 0 && bad == "" {
+				return "ok", fmt.Sprintf("parameter of private helper %s: all %d call sites pass fresh or clamped storage", fnName(top), n)
+			}
+		}
+		return "bad", "parameter " + x.Name()
+	}
+	return "bad", fmt.Sprintf("%T", v)
+}
+
+func sameValue2(a, b ssa.Value) bool {
+	if a == b {
+		return true
+	}
+	ta, tb := traceAddr(a), traceAddr(b)
+	return len(ta.bases) == 1 && len(tb.bases) == 1 && ta.bases[0].v == tb.bases[0].v && len(ta.fields) == len(tb.fields)
+}
+
+var w6Exceptions = map[string]string{
+
+}
+
+var w6Prog *Prog
+var w6Depth int
+
+// stackOnlyParam: the slice parameter is only read, or passed (possibly
+// appended to) as an argument to module functions whose parameter is again
+// stack-only; it is never stored into memory or returned.
+func stackOnlyParam(p *ssa.Parameter, inProgress map[*ssa.Parameter]bool) bool {
+	if inProgress[p] {
+		return true
+	}
+	inProgress[p] = true
+	return stackOnlyValue(p, inProgress)
+}
+
+var stackOnlySeen = map[ssa.Value]bool{}
+
+func stackOnlyValue(v ssa.Value, inProgress map[*ssa.Parameter]bool) bool {
+	if stackOnlySeen[v] {
+		return true
+	}
+	stackOnlySeen[v] = true
+	defer delete(stackOnlySeen, v)
+	refs := v.Referrers()
+	if refs == nil {
+		return true
+	}
+	for _, r := range *refs {
+		switch x := r.(type) {
+		case *ssa.Return, *ssa.MapUpdate, *ssa.MakeClosure, *ssa.Send:
+			if os.Getenv("VERIF_DEBUG_W6") != "" {
+				fmt.Fprintf(os.Stderr, "stackOnly false: %s used by %T in %s\n", v.Name(), r, r.Parent())
+			}
+			return false
+		case *ssa.Store:
+			if x.Val == v {
+				// spilled into the variadic array of an append? that array is a temp
+				if os.Getenv("VERIF_DEBUG_W6") != "" {
+				fmt.Fprintf(os.Stderr, "stackOnly false: %s used by %T in %s\n", v.Name(), r, r.Parent())
+			}
+			return false
+			}
+		case *ssa.Call:
+			if b, ok := x.Call.Value.(*ssa.Builtin); ok {
+				switch b.Name() {
+				case "len", "cap":
+					continue
+				case "append":
+					if x.Call.Args[0] == v {
+						if !stackOnlyValue(x, inProgress) {
+							if os.Getenv("VERIF_DEBUG_W6") != "" {
+				fmt.Fprintf(os.Stderr, "stackOnly false: %s used by %T in %s\n", v.Name(), r, r.Parent())
+			}
+			return false
+						}
+						continue
+					}
+					if os.Getenv("VERIF_DEBUG_W6") != "" {
+				fmt.Fprintf(os.Stderr, "stackOnly false: %s used by %T in %s\n", v.Name(), r, r.Parent())
+			}
+			return false
+				default:
+					if os.Getenv("VERIF_DEBUG_W6") != "" {
+				fmt.Fprintf(os.Stderr, "stackOnly false: %s used by %T in %s\n", v.Name(), r, r.Parent())
+			}
+			return false
+				}
+			}
+			cal := x.Call.StaticCallee()
+			if cal != nil && fnPkgPath(cal) == "slices" {
+				switch baseName(cal) {
+				case "Contains", "ContainsFunc", "Index", "IndexFunc", "Equal":
+					continue // read-only library functions
+				}
+			}
+			if cal == nil || cal.Blocks == nil || !strings.HasPrefix(fnPkgPath(cal), modPath) {
+				if os.Getenv("VERIF_DEBUG_W6") != "" {
+				fmt.Fprintf(os.Stderr, "stackOnly false: %s used by %T in %s\n", v.Name(), r, r.Parent())
+			}
+			return false
+			}
+			for i, a := range x.Call.Args {
+				if a == v {
+					if i >= len(cal.Params) || !stackOnlyParam(cal.Params[i], inProgress) {
+						if os.Getenv("VERIF_DEBUG_W6") != "" {
+				fmt.Fprintf(os.Stderr, "stackOnly false: %s used by %T in %s\n", v.Name(), r, r.Parent())
+			}
+			return false
+					}
+				}
+			}
+		case *ssa.Range, *ssa.Index, *ssa.IndexAddr, *ssa.Lookup, *ssa.DebugRef:
+			// reads (IndexAddr may be written through, but only by the owner of the backing array)
+			if ia, ok := r.(*ssa.IndexAddr); ok {
+				for _, r2 := range *ia.Referrers() {
+					if st, ok := r2.(*ssa.Store); ok && st.Addr == ia {
+						if os.Getenv("VERIF_DEBUG_W6") != "" {
+				fmt.Fprintf(os.Stderr, "stackOnly false: %s used by %T in %s\n", v.Name(), r, r.Parent())
+			}
+			return false
+					}
+				}
+			}
+		case *ssa.Slice, *ssa.Phi, *ssa.ChangeType:
+			if !stackOnlyValue(r.(ssa.Value), inProgress) {
+				if os.Getenv("VERIF_DEBUG_W6") != "" {
+				fmt.Fprintf(os.Stderr, "stackOnly false: %s used by %T in %s\n", v.Name(), r, r.Parent())
+			}
+			return false
+			}
+		case *ssa.BinOp, *ssa.If:
+		default:
+			if os.Getenv("VERIF_DEBUG_W6") != "" {
+				fmt.Fprintf(os.Stderr, "stackOnly: %s used by %T %v in %s\n", v.Name(), r, r, r.Parent())
+			}
+			if os.Getenv("VERIF_DEBUG_W6") != "" {
+				fmt.Fprintf(os.Stderr, "stackOnly false: %s used by %T in %s\n", v.Name(), r, r.Parent())
+			}
+			return false
+		}
+	}
+	return true
 }
